@@ -1447,20 +1447,20 @@ def run(ctx):
     rng = ctx.rng
     mult = ctx.search_mult
     cases = [json.loads(json.dumps(c)) for c in CORPUS]
-    n_acc = ctx.n(2500, 20000) * mult
+    n_acc = ctx.n(2500, 60000) * mult
     for i in range(n_acc):
         cases.append(gen_acc_case(rng, ACC_CLASSES[i % len(ACC_CLASSES)] if i < 4 * len(ACC_CLASSES) else None))
-    for _ in range(ctx.n(150, 1000) * mult):
+    for _ in range(ctx.n(150, 3000) * mult):
         cases.append(gen_size_case(rng))
-    for _ in range(ctx.n(1200, 8000) * mult):
+    for _ in range(ctx.n(1200, 30000) * mult):
         cases.append(gen_cellid_case(rng))
-    for _ in range(ctx.n(1200, 8000) * mult):
+    for _ in range(ctx.n(1200, 30000) * mult):
         cases.append(gen_delay_case(rng))
-    for _ in range(ctx.n(400, 3000) * mult):
+    for _ in range(ctx.n(400, 8000) * mult):
         cases.append(gen_hsfi_case(rng))
-    for _ in range(ctx.n(1500, 15000) * mult):
+    for _ in range(ctx.n(1500, 40000) * mult):
         cases.append(gen_regex_case(rng))
-    for _ in range(ctx.n(400, 3000) * mult):
+    for _ in range(ctx.n(400, 6000) * mult):
         cases.append(gen_doc_case(rng, big=(ctx.tier == "thorough")))
     # the generated references / spellings are inside the schema patterns and inside the theorems' vocabulary
     trx, prx = time_regex()
